@@ -39,7 +39,7 @@ func verifyFat(fr io.ReaderAt, infoPlist, resources []byte, opts signers.VerifyO
 	var sigs []*signers.Signature
 	for _, arch := range fatFile.Arches {
 		r := io.NewSectionReader(fr, int64(arch.Offset), int64(arch.Size))
-		sig, err := verifyMacho(r, nil, nil, opts)
+		sig, err := verifyMacho(r, infoPlist, resources, opts)
 		if err != nil {
 			return nil, fmt.Errorf("%s.%d: %w", arch.Cpu, arch.SubCpu, err)
 		}
